@@ -53,6 +53,9 @@ def mutations(rng, kb, ver):
         "KS04", "KS03", "KS00", "KS0000", "KS0001", "KS000100", "KS000104", "KS00020004", "KS0002000A", "KS0002FFFF", "KS00FF" + "F" * 510,
         "KS00FF" + "0" * 509, "KS00FF" + "0" * 510, "KS00800" + "1" * 255, "KSFF" + "x" * 10, "KS05é", "KS05\ud800", "K", "KS", "KS0", "KS0G", "KSg0", "\x00\x0004",
         "PB04", "PB08é000", "pb08\ud800000", "Pb05\x00", "pB06\n\t", "PB0C" + "é" * 8, "PB00020010" + "é" * 6, "PB03", "PB", "P", "PB0", "PBFF",
+        # ids the standard gives a meaning to, with no data, one character, text that is not what the standard prescribes for them
+        "TS04", "TS05Z", "TS0002000A", "KC04", "KC05x", "KP04", "KV04", "KV05V", "KS04", "HM04", "HM050", "CT04", "CT051", "WP04", "WP05x", "LB04", "PK04", "DA04", "AL04", "BI04", "IK04", "TC04",
+        "TS13YYMMDDhhmmssZ"[:4] + "2613"[:0] + "", "TS0F20260930Z", "ts04", "Ts05Z",
         # the same id twice, the first occurrence carrying what must be refused
         "KS05éKS05a", "KS08€000KS080000", "KS05\ud800KS05b", "KS06\x00\x01KS04", "T105\x7fT105x", "KS05ÿKS04", "ks05éKS05a",
         "Kı04", "KS08ab\x7fd", "KS 4", "KS+4", "KS-4", "T104T204T304", "T104T104",
@@ -137,11 +140,17 @@ def generate(rng, tier, seed):
     for ver in "ABCD":
         bs, ksizes, ml = VERS[ver]
         for blk in ("TT07A1B", "TT05x", "KS0Babcdefg", "", "T104", "T105y"):
-            for t in range(0, 4 * bs + 2):
+            for t in list(range(0, 4 * bs + 2)) + [6 * bs + k for k in range(0, bs + 1)] + [10 * bs - len(blk) % bs, 12 * bs]:
                 total = 16 + len(blk) + t
                 if total % bs and rng.random() < 0.8:
                     continue
                 tail = "".join(rng.choice("0123456789ABCDEF") for _ in range(t))
+                if t >= 4 and rng.random() < 0.5:
+                    # whitespace between hex pairs makes the decoded sections shorter than their text: with an unaligned header the
+                    # text can be a block multiple while the bytes are not
+                    w = rng.randrange(1, min(t, 2 * bs) + 1)
+                    at = 2 * rng.randrange(0, (t - w) // 2 + 1)
+                    tail = tail[:at] + rng.choice(" \n\t") * w + tail[at + w:]
                 s_ = ver + str(total).zfill(4) + "P0TE00N" + ("01" if blk else "00") + "00" + blk + tail
                 c = Case(f"{ver}:unpadded-header-short-tail", {"block": blk, "tail": t})
                 targets(c, rng, rb(rng, ksizes[0]), s_)
